@@ -18,7 +18,8 @@ ResOK(e, got) ==
             /\ (got.k = "bool"  => got.v = e.v)
             /\ (got.k = "names" => ToSet(got.v) = e.v /\ Len(got.v) = Cardinality(e.v))
             /\ (got.k = "enc"   => [f \in DOMAIN got.v |-> got.v[f]] = e.v)
-            /\ VecOf(got.a) = e.a /\ VecOf(got.b) = e.b          \* operands never modified
+            /\ VecOf(got.a) = e.a /\ VecOf(got.b) = e.b          \* operands never modified ...
+            /\ ExactFields(got.a) /\ ExactFields(got.b)          \* ... and still carry every field
       [] e.k = "ledger" -> got.k = "ledger" /\ VecOf(got.free) = e.free
 
 Init == tid \in 1..Len(Traces) /\ l = 1 /\ cur = EmptyLedger /\ bad = 0
@@ -28,7 +29,7 @@ Next == /\ l <= Len(Traces[tid].steps)
                got  == [total |-> VecOf(line.state.total), allocated |-> VecOf(line.state.allocated)]
                v    == IF line.out # exp.out THEN "outcome: expected " \o exp.out \o " got " \o line.out
                        ELSE IF ~ResOK(exp.res, line.res) THEN "result"
-                       ELSE IF got # exp.st THEN "ledger"
+                       ELSE IF got # exp.st \/ ~ExactFields(line.state.total) \/ ~ExactFields(line.state.allocated) THEN "ledger"
                        ELSE IF ~LedgerInv(got) THEN "free+allocated#total"
                        ELSE ""
            IN  /\ IF v # "" THEN PrintT(ToJson([verdict |-> "REJECT", tid |-> Traces[tid].tid, line |-> l, clause |-> v])) ELSE TRUE
